@@ -620,6 +620,7 @@ func gen(t *rapid.T) FileSpec {
 				Out:          rapid.IntRange(0, 7).Draw(t, "out"),
 				Deprecated:   rapid.IntRange(0, 5).Draw(t, "deprecatedMethod") == 0,
 				Comment:      rapid.SampledFrom(comments).Draw(t, "methodComment"),
+				Trailing:     rapid.SampledFrom([]string{"", "", "", " one trailing line\n", " trailing, line one\n line two with */ inside\n", " ünï trailing\n\n after a blank line\n"}).Draw(t, "methodTrailing"),
 			})
 		}
 		f.Services = append(f.Services, s)
